@@ -2,7 +2,8 @@
    Only statements closed by [exact]; proofs live in Frag/SplitSound.v and Frag/BufferSound.v.
    Models: Frag/Split.v (conn.go fragmentHandshake + util.SplitBytes),
            Frag/Buffer.v (internal/fragmentbuffer/fragment_buffer.go + conn.go bufferHandshakeRecord). *)
-From DtlsV Require Import Lib.Bytes Gen.Generated Frag.Split Frag.SplitSound Frag.Buffer Frag.BufferSound.
+From DtlsV Require Import Lib.Bytes Gen.Generated Frag.Split Frag.SplitSound Frag.Buffer Frag.BufferSound
+  Frag.BufferAcct Frag.BufferAcctSound.
 Open Scope N_scope.
 
 (* ---- sender ---- *)
@@ -71,6 +72,78 @@ Theorem C12_many_messages_reverse_delivered :
   length (cache (fst (fst (run init (removelast mm_history))))) = 10%nat.
 Proof. exact many_messages_reverse_delivered. Qed.
 Print Assumptions C12_many_messages_reverse_delivered.
+
+(* ---- accounting of the fixed limits under duplication (Frag/BufferAcct.v) ---- *)
+
+(* For EVERY sequence of Push (any payload) / Pop / AdvanceTo calls: totalFragmentCount is exactly the
+   number of fragments held in the cache and totalBufferSize exactly the sum of their lengths (read off
+   the cache itself) - nothing that was discarded stays charged, nothing held is uncharged. *)
+Theorem C12_accounting_exact :
+  forall ops : list api,
+    let st := fold_left api_step ops init in
+    count st = stored_count (cache st) /\ size st = stored_size (cache st).
+Proof. exact accounting_exact. Qed.
+Print Assumptions C12_accounting_exact.
+
+(* the same along arrival histories handled as conn.go bufferHandshakeRecord does (Push, Pop until nil) *)
+Theorem C12_accounting_exact_run :
+  forall rs : list record,
+    let st := fst (fst (run init rs)) in
+    count st = stored_count (cache st) /\ size st = stored_size (cache st).
+Proof. exact accounting_exact_run. Qed.
+Print Assumptions C12_accounting_exact_run.
+
+(* duplicates are free: a fragment whose (message_seq, offset) is already held changes neither
+   totalBufferSize nor totalFragmentCount nor the cursor nor anything held ... *)
+Theorem C12_duplicate_fragment_free :
+  forall ep st b f, held st f ->
+    let st' := fst (push_frag ep (st, b) f) in
+    size st' = size st /\ count st' = count st /\ cur st' = cur st /\
+    forall k, clookup k (cache st') = clookup k (cache st).
+Proof. exact duplicate_fragment_free. Qed.
+Print Assumptions C12_duplicate_fragment_free.
+
+(* ... and so does a whole record of such fragments (a retransmitted datagram), whatever Push answers *)
+Theorem C12_duplicate_record_free :
+  forall st ep fs tail, Forall (held st) fs ->
+    let st' := fst (push st (RHs ep fs tail)) in
+    size st' = size st /\ count st' = count st /\ cur st' = cur st /\
+    forall k, clookup k (cache st') = clookup k (cache st).
+Proof. exact duplicate_record_free. Qed.
+Print Assumptions C12_duplicate_record_free.
+
+(* a well-formed handshake record is refused only when what is HELD (plus the record) is at a fixed
+   limit - after any history of pushes / pops / advances, however many duplicates it contained *)
+Theorem C12_refusal_only_at_limits :
+  forall (ops : list api) ep fs,
+    let st := fold_left api_step ops init in
+    let r := RHs ep fs 0 in
+    snd (snd (push st r)) = true ->
+    max_size <= stored_size (cache st) + record_size r \/ max_count <= stored_count (cache st).
+Proof. exact refusal_only_at_limits. Qed.
+Print Assumptions C12_refusal_only_at_limits.
+
+(* the switch of Frag/BufferAcct.v set to false is the model of the code as it is *)
+Theorem C12_run_b_false : forall rs st, run_b false st rs = run st rs.
+Proof. exact run_b_false. Qed.
+Print Assumptions C12_run_b_false.
+
+(* the variant that charges the limits BEFORE the duplicate-offset check (Pop / AdvanceTo still release
+   only what is stored) violates the property: the second fragment of the sender's MTU-1 partition of a
+   2-byte message arrives 1000 times (plain duplicates) - one fragment of one byte is held, the counter
+   says 1000, the honest first fragment is refused and nothing is ever delivered again; the code as it
+   is delivers the message on that history *)
+Theorem C12_charge_before_duplicate_check_refuted :
+  split_msg 1 dup_msg = [dup_first; dup_second] /\
+  Forall (fun r => r = RHs 0 [dup_second] 0) dup_history /\
+  let st := fst (fst (run_b true init dup_history)) in
+  snd (fst (run_b true init dup_history)) = [] /\
+  stored_count (cache st) = 1 /\ stored_size (cache st) = 1 /\ count st = 1000 /\
+  push_b true st (RHs 0 [dup_first] 0) = (st, (false, false, true)) /\
+  (forall rs, run_b true st rs = (st, [], false)) /\
+  map strip (snd (fst (run init (dup_history ++ [RHs 0 [dup_first] 0])))) = [hstrip dup_msg].
+Proof. exact charge_before_duplicate_check_refuted. Qed.
+Print Assumptions C12_charge_before_duplicate_check_refuted.
 
 (* ---- retransmissions ---- *)
 Theorem C12_retransmit_flag :
